@@ -71,8 +71,8 @@ class CellSpanningTree(SpanningTree):
             PolyLine: the tree
         """
         output = PolyLine()
-        if self.mesh.faces.has_attribute("barycenter"):
-            bary = self.mesh.cells.attribute("barycenter")
+        if self.mesh.cells.has_attribute("barycenter"):
+            bary = self.mesh.cells.get_attribute("barycenter")
         else:
             bary = cell_barycenter(self.mesh, persistent=False)
         for iC in self.mesh.id_cells:
